@@ -1,5 +1,5 @@
 (* C19 - the non-separable bank equals the separable one: the outer-product kernel factorises the double sum. *)
-From PW Require Import Base.Ops Base.Sum Base.Sig Base.Tensor Model.Dwt.
+From PW Require Import Base.Ops Base.Sum Base.Sig Base.Tensor Model.Dwt Spec.Line Proofs.DwtNF Proofs.SfbNF Proofs.C19Proofs Proofs.C19ProofsSyn.
 
 Section S.
 Context {R:Type} (Op:Ops R) (Rth: RingOk Op).
@@ -22,3 +22,36 @@ Proof.
   intros. unfold conv2d_dw, w_afb_nonsep. cbn [tf wKH wKW wf wO]. apply outer_factor. exact Rth.
 Qed.
 Print Assumptions C19_kernel_factorises.
+
+(* ---- composed equalities on the model: the non-separable bank = the separable functional API ----
+   same_vals h w A B: A and B have the same batch/channel shape, spatial shape h x w, and equal values.  The non-separable functions take
+   the filters as the caller passes them (they flip them themselves), the separable API takes the registered (reversed) ones. *)
+(* analysis, zero padding: every image size, filter lengths, filters *)
+Theorem C19_analysis_zero :
+  forall (R:Type) (Op:Ops R) (Rth:RingOk Op) (x:@ten R) Ly h0c h1c Lx h0r h1r, 2 <= Ly -> 2 <= Lx -> 1 <= tH x -> 1 <= tW x -> 0 < tC x ->
+  is_ok (afb2d_nonsep Op x Ly h0c h1c Lx h0r h1r M_ZERO) (fun y1 =>
+  is_ok (afb2d Op x Lx (rev_filt Lx h0r) (rev_filt Lx h1r) Ly (rev_filt Ly h0c) (rev_filt Ly h1c) M_ZERO) (fun y2 =>
+    same_vals ((tH x + Ly - 1)/2) ((tW x + Lx - 1)/2) y1 y2)).
+Proof. exact @nonsep_zero_eq. Qed.
+Print Assumptions C19_analysis_zero.
+(* analysis, symmetric padding (every size) and reflect padding (whenever the padding is smaller than the image, else both raise) *)
+Theorem C19_analysis_sym_reflect :
+  forall (R:Type) (Op:Ops R) (Rth:RingOk Op) (x:@ten R) Ly h0c h1c Lx h0r h1r mode, 2 <= Ly -> 2 <= Lx -> 1 <= tH x -> 1 <= tW x -> 0 < tC x ->
+  let aH := (2 * ((tH x + Ly - 1)/2 - 1) - tH x + Ly + 1)/2 in let aW := (2 * ((tW x + Lx - 1)/2 - 1) - tW x + Lx + 1)/2 in
+  mode = M_SYMM \/ (mode = M_REFLECT /\ Ly - 2 < tH x /\ aH < tH x /\ Lx - 2 < tW x /\ aW < tW x) ->
+  is_ok (afb2d_nonsep Op x Ly h0c h1c Lx h0r h1r mode) (fun y1 =>
+  is_ok (afb2d Op x Lx (rev_filt Lx h0r) (rev_filt Lx h1r) Ly (rev_filt Ly h0c) (rev_filt Ly h1c) mode) (fun y2 =>
+    same_vals ((tH x + Ly - 1)/2) ((tW x + Lx - 1)/2) y1 y2)).
+Proof. exact @nonsep_gather_eq. Qed.
+Print Assumptions C19_analysis_sym_reflect.
+(* synthesis, four non-periodization modes, ANY four bands of equal shape (channels 4c + b of x) *)
+Theorem C19_synthesis :
+  forall (R:Type) (Op:Ops R) (Rth:RingOk Op) (x:@ten R) Ly g0c g1c Lx g0r g1r mode, nonper_mode mode ->
+  2 <= Ly -> 2 <= Lx -> 1 <= tH x -> 1 <= tW x -> 0 < tC x -> tC x mod 4 = 0 -> 1 <= 2 * tH x - Ly + 2 -> 1 <= 2 * tW x - Lx + 2 ->
+  is_ok (sfb2d_nonsep Op x Ly g0c g1c Lx g0r g1r mode) (fun y1 =>
+  is_ok (sfb2d Op (band4 0 x) (band4 1 x) (band4 2 x) (band4 3 x) Lx g0r g1r Ly g0c g1c mode) (fun y2 =>
+    tN y2 = tN y1 /\ tC y2 = tC y1 /\ tH y1 = 2 * tH x - Ly + 2 /\ tH y2 = 2 * tH x - Ly + 2 /\ tW y1 = 2 * tW x - Lx + 2 /\ tW y2 = 2 * tW x - Lx + 2 /\
+    forall n c i j, 0 <= c < tC x / 4 -> 0 <= i < 2 * tH x - Ly + 2 -> 0 <= j < 2 * tW x - Lx + 2 -> tf y1 n c i j = tf y2 n c i j)).
+Proof. exact @nonsep_syn_eq. Qed.
+Print Assumptions C19_synthesis.
+
